@@ -968,8 +968,9 @@ func genC14(seed uint64, i int, race bool, cold bool) Case {
 				}
 			}
 		}
-		if cold {
-			// no budget guard precedes a cold concurrent run: memoisation on
+		if cold || race {
+			// no budget guard precedes a cold concurrent run, and the unwoven
+			// race build has no step counter at all: memoisation on
 			// and inputs of bounded size; half of the cold clients take the
 			// largest such inputs (state that is grown or built lazily is
 			// usually size-dependent) and print their trees
